@@ -3,15 +3,17 @@ import chan_common as cc
 
 def run(tier, seed):
     return cc.run_check("C02", tier, seed,
-        mc_cfgs=(["Forward.cfg", "ForwardN:ForwardN.cfg"], ["Forward.cfg", "ForwardN:ForwardN.cfg"]), mc_module="Forward",
-        mutant_cfgs=("ForwardMutant.cfg", "ForwardN:ForwardNReplace.cfg", "ForwardN:ForwardNNone.cfg"),
+        mc_cfgs=(["Forward.cfg", "ForwardN:ForwardN.cfg", "DownReplay:DownReplay2.cfg"], ["Forward.cfg", "ForwardN:ForwardN.cfg", "DownReplay:DownReplay.cfg"]), mc_module="Forward",
+        mc_actions_by_module={"DownReplay": ("Build", "Complete", "Advance", "Kill", "CClose", "Restart")},
+        mutant_cfgs=("ForwardMutant.cfg", "ForwardN:ForwardNReplace.cfg", "ForwardN:ForwardNNone.cfg", "DownReplay:DownReplayMutant.cfg"),
         mc_actions=("DownFulfil", "DownFail", "UpPreimageComplete", "DownRaaSubmit", "DownRaaComplete", "UpClaim", "UpFail", "Crash"),
         profiles=[("default", 3, 120), ("async", 3, 150), ("crash", 3, 100)],
         thorough_profiles=[("default", 3, 1000), ("async", 3, 1500), ("crash", 3, 1000)],
-        families=[("failwin", 250), ("fanin", 250), ("skim", 100), ("fwdlate", 100), ("chainsettle", 80), ("badonion", 100), ("dustflood", 120)], thorough_families=[("failwin", 2000), ("fanin", 2000), ("skim", 800), ("fwdlate", 600), ("chainsettle", 400), ("badonion", 800), ("dustflood", 1000)],
+        families=[("failwin", 250), ("fanin", 250), ("skim", 100), ("fwdlate", 100), ("chainsettle", 80), ("badonion", 100), ("dustflood", 120), ("downclose", 60)], thorough_families=[("failwin", 2000), ("fanin", 2000), ("skim", 800), ("fwdlate", 600), ("chainsettle", 400), ("badonion", 800), ("dustflood", 1000), ("downclose", 500)],
         assumptions=cc.COMMON_ASSUMPTIONS + [
-            "both links stay off-chain (on-chain resolution of a forwarded HTLC is covered by the on-chain checks "
-            "C06-C08); when a channel of the forwarding node was closed after a stale-manager restart the "
+            "both links stay off-chain except in the chainsettle / downclose families and the DownReplay behaviours, where "
+            "a miner confirms every broadcast and the end-to-end money rules are judged once the chain has settled (the "
+            "transactions themselves are judged by the on-chain checks C06-C08); when a channel of the forwarding node was closed after a stale-manager restart the "
             "fail-back / balance clauses are not judged for that node",
             "the forwarding node's policy (fee base/ppm, cltv delta) is read from its configuration at start",
             "dust exposure: only HTLCs below both sides' plain dust limits that are not yet being removed are summed (an "
